@@ -28,7 +28,10 @@ META = {
     'assumptions': ['selectors in the pool are scope-free, so match(d) with scope d is the same question as select from t'],
 }
 
-NS = {'svg': trees.NS_SVG}
+NS_DEFAULT = {'svg': trees.NS_SVG}
+NS_XML = {'p': 'urn:a', 'q': 'urn:b', '': 'urn:a'}
+POOL_XML = ['p|a:not(:checked)', 'a:not(:link)', 'q|*:not(:disabled), b', '*|a:has(> p|b):not(:required)', '[p|k]:not(:checked)',
+            ':not(:enabled) > a', 'b, *|c:not(:any-link)', 'p|*:nth-child(odd):not(:optional)']
 POOL = [
     ':lang(en)', ':lang("")', ':lang("*")', ':lang(de, fr)', ':not(:lang(de))', 'html:lang("")', ':lang("de-*")',
     ':default', 'form :default', ':has(> :default)', ':not(:default)', 'button:default, input:default',
@@ -68,8 +71,9 @@ def positions(doc, result):
     return [order.get(id(x), -1) for x in result]
 
 
-def do_call(doc, call):
+def do_call(doc, call, NS=None):
     """Run one recorded call on a materialised doc; returns a position-encoded result."""
+    NS = NS_DEFAULT if NS is None else NS
     els = doc.all_elements()
     t = call['target']
     target = doc.top() if t < 0 or not els else els[t % len(els)]
@@ -98,11 +102,12 @@ def do_call(doc, call):
     return positions(doc, r), target
 
 
-def check_step(recipe, doc, snap, history, fails):
+def check_step(recipe, doc, snap, history, fails, NS=None):
     """Invariants after the last call of `history`."""
+    NS = NS_DEFAULT if NS is None else NS
     call = history[-1]
     try:
-        res, target = do_call(doc, call)
+        res, target = do_call(doc, call, NS)
     except Exception as e:  # noqa: BLE001
         fails.append(('raises-' + type(e).__name__, f'{call}: {e!r:.200}'))
         return None
@@ -132,7 +137,7 @@ def check_step(recipe, doc, snap, history, fails):
     sv.purge()
     fresh = trees.materialise(recipe)
     try:
-        res2, _ = do_call(fresh, call)
+        res2, _ = do_call(fresh, call, NS)
     except Exception as e:  # noqa: BLE001
         fails.append(('raises-on-pristine-' + type(e).__name__, f'{call}: {e!r:.200}'))
         res2 = res
@@ -153,8 +158,9 @@ def run_history(case):
     doc = trees.materialise(case['tree'])
     snap = snapshot(doc)
     fails = []
+    ns = case.get('ns')
     for i in range(1, len(case['history']) + 1):
-        check_step(case['tree'], doc, snap, case['history'][:i], fails)
+        check_step(case['tree'], doc, snap, case['history'][:i], fails, ns)
         if fails:
             break
     return fails
@@ -191,7 +197,14 @@ def make_machine(col, tier, t_end):
         @initialize(seedv=st.integers(0, (1 << (8 * 3072)) - 1))
         def setup(self, seedv):
             ch = choose.Chooser(seedv.to_bytes(3072, 'little'))
-            self.recipe, self.flavour = htmldoc.gen_html_doc(ch, depth=2 if tier == 'quick' else 3, iframe_rooted=False, memo_rich=True)
+            self.ns = None
+            if ch.p(0.15):
+                from props import c12
+                self.recipe, self.flavour = c12.gen_xml_recipe(ch, ch.pick(('xml-api', 'lxml-xml'))), 'namespaced-xml'
+                self.ns = dict(NS_XML)
+            else:
+                self.recipe, self.flavour = htmldoc.gen_html_doc(ch, depth=2 if tier == 'quick' else 3,
+                                                                 iframe_rooted=False, memo_rich=True)
             sv.purge()
             self.doc = trees.materialise(self.recipe)
             self.snap = snapshot(self.doc)
@@ -206,17 +219,19 @@ def make_machine(col, tier, t_end):
               tgt=st.integers(-3, 40), perm=st.lists(st.integers(0, 20), max_size=4))
         def query(self, si, kind, tgt, perm):
             text = POOL[si] if si < len(POOL) else self.extra[si - len(POOL)]
+            if self.ns is not None and si % 3 != 2:
+                text = POOL_XML[si % len(POOL_XML)]
             call = {'call': kind, 'sel': text, 'target': tgt, 'perm': perm}
             self.history.append(call)
             fails = []
-            info = check_step(self.recipe, self.doc, self.snap, self.history, fails)
+            info = check_step(self.recipe, self.doc, self.snap, self.history, fails, self.ns)
             col.count(6)
             col.classify('call:' + kind)
             if info and info['n'] >= 2 and any(m in text for m in MEMO):
                 self.memo_queries += 1
                 self.nonempty = self.nonempty or info['nonempty']
             for b, d in fails[:2]:
-                col.fail(b, {'tree': self.recipe, 'history': list(self.history)}, d)
+                col.fail(b, {'tree': self.recipe, 'history': list(self.history), 'ns': self.ns}, d)
 
         def teardown(self):
             if self.doc is not None and self.memo_queries >= 2 and self.nonempty:
